@@ -61,7 +61,7 @@ CHECKS = {
          "reference encoder validated on the AWS documentation example; in the 64 KiB chunk, data-byte flips and truncations are taken on a stride (stated in the evidence), all header bytes are covered"),
  "C07": ("exploration", "full-product enumeration of request classes x operations x service configurations with a reference monitor over the ordered event log, on the real S3Service::call",
          "DESIGN §4 C07",
-         "The complete product of 14 request classes x all 96 operations (plus the POST form) x provider x 6 access-hook modes x 4 route modes x host parser is executed; a reference monitor checks on every event log that identities shown are the verified signer's, that check -> typed hook -> backend are ordered and agree on the operation, that nothing follows a denial and the denial's code is returned, and that without a provider any request presenting a signature is refused. No bound is needed: the space is finite and fully enumerated.",
+         "The complete product of 16 request classes x all 96 operations (plus the POST form) x provider x 6 access-hook modes x 4 route modes x host parser is executed; a reference monitor checks on every event log that identities shown are the verified signer's, that check -> typed hook -> backend are ordered and agree on the operation, that nothing follows a denial and the denial's code is returned, and that without a provider any request presenting a signature is refused. No bound is needed: the space is finite and fully enumerated.",
          "base requests are what aws-sdk-s3 encodes for base inputs; reference signers validated on documentation vectors; which operation a request denotes is C01's subject (here the stages must agree with each other)"),
  "C06": ("exploration", "bounded exhaustive enumeration of presigned URLs x expiry values x clock instants x single-parameter mutations, differential against a reference verifier, on the real S3Service::call with an owned clock",
          "DESIGN §4 C06",
